@@ -585,7 +585,12 @@ Definition step_acc (a : acc) (o : json) : acc :=
       (* the specification judges of one operation, given the model's state before (sy0) and after (sy')
          it, the model's result m and whether the step is ambiguous *)
       let judge (sy' : system) (m : json) (amb : bool) : bool * list string :=
-
+            (* C13: the process died (panic, stack overflow) or hung on this operation.  Never excused by
+               ambiguity; D54 = the matcher's unbounded recursion on non-ground data (D12) reached through
+               the public API (the pattern meets stored data with "?"-strings under a repeated variable) *)
+            if String.eqb (jfS "class" obs) "crash" || String.eqb (jfS "class" obs) "hang"
+            then (true, if op_risky sy0 o then ["D54"] else [])
+            else
             if match jget "ttl_mismatch" obs with Some _ => true | None => false end
             then (true, filter (fun k => String.eqb k "D7") (kf_of sy0 o))
                  (* C17: the three cache TTLs gave different answers to the same request (D7: whether the index
